@@ -197,6 +197,28 @@ pub fn main_pred(args: &[String]) -> i32 {
                     "detail": {"anchor": a.to_array(), "width": w.to_array(), "periodic": per, "dim": dimi + 1, "pos": p.to_array(), "message": m}})),
             }
         }
+        // the map must be a SIMILARITY on the used axes (same scale along each of them): the in-sphere test the grid
+        // coordinates are fed to is not invariant under anisotropic scaling.  Equal displacements along two used axes
+        // must give equal grid differences (up to the rounding of the map).
+        if dimi >= 1 {
+            let base = a + 0.25 * w;
+            let step = 0.5 * (0..=dimi).map(|k| w[k]).fold(f64::INFINITY, f64::min);
+            let mut diffs: Vec<i64> = vec![];
+            for k in 0..=dimi {
+                let mut p1 = base;
+                p1[k] += step;
+                if let (Ok(q0), Ok(q1)) = (guarded(|| bd.iloc(base)), guarded(|| bd.iloc(p1))) {
+                    diffs.push(q1[k] - q0[k]);
+                }
+            }
+            if let (Some(mx), Some(mn)) = (diffs.iter().max(), diffs.iter().min()) {
+                // relative agreement to 1e-9 (the offsets of the box limit the absolute accuracy of the map)
+                if (*mx - *mn) as f64 > 1e-9 * (*mx as f64).abs() + 4096.0 {
+                    failures.push(json!({"prop": "C10", "what": "the map from positions to the grid is not a similarity: equal steps along different used axes give different grid steps (the in-sphere test then decides about an ellipsoid)",
+                        "detail": {"anchor": a.to_array(), "width": w.to_array(), "periodic": per, "dim": dimi + 1, "step": step, "grid_steps": diffs}}));
+                }
+            }
+        }
         for k in 0..3 {
             let mut v: Vec<(f64, i64)> = mapped.iter().map(|(p, q)| (p[k], q[k])).collect();
             v.sort_by(|x, y| x.0.partial_cmp(&y.0).unwrap());
